@@ -134,6 +134,14 @@ func (w *watcher) Start(c context.Context, r *etcdserverpb.WatchCreateRequest) {
 	w.Unlock()
 	w.metricCli.EmitGauge("watch.watch_id", id)
 
+	// subscribe BEFORE acknowledging: a write that is acknowledged after the client has seen `Created` must be
+	// delivered, so the watch has to be registered with the backend by then (a watch from "now" has no history
+	// to catch up from)
+	var sub *subscription
+	if r.StartRevision >= 0 && isPureWatchRequest(r) {
+		sub = w.subscribe(ctx, r)
+	}
+
 	if err := w.watchServer.Send(&etcdserverpb.WatchResponse{
 		Header:  &etcdserverpb.ResponseHeader{},
 		Created: true,
@@ -153,9 +161,25 @@ func (w *watcher) Start(c context.Context, r *etcdserverpb.WatchCreateRequest) {
 		go w.List(ctx, id, r)
 	} else {
 		w.metricCli.EmitCounter("watch.watch", 1)
-		go w.Watch(ctx, id, r)
+		go w.Watch(ctx, id, r, sub)
 		klog.InfoS("watch start", "id", id, "count", watchCount, "key", key, "revision", r.StartRevision)
 	}
+}
+
+// subscription is the outcome of registering a watch with the backend (or, on a follower, with the leader)
+type subscription struct {
+	ch  <-chan []*mvccpb.Event
+	err error
+}
+
+func (w *watcher) subscribe(ctx context.Context, r *etcdserverpb.WatchCreateRequest) *subscription {
+	sub := &subscription{}
+	if w.grpcServer.peers.IsLeader() {
+		sub.ch, sub.err = w.backend.Watch(ctx, string(r.Key), uint64(r.StartRevision))
+	} else {
+		sub.ch, sub.err = w.grpcServer.peers.Watch(ctx, string(r.Key), uint64(r.StartRevision))
+	}
+	return sub
 }
 
 func (w *watcher) Cancel(id int64, err error, compact bool) {
@@ -278,7 +302,7 @@ func (w *watcher) List(ctx context.Context, id int64, r *etcdserverpb.WatchCreat
 	klog.InfoS("[range stream] range closed", "watcher", w.id, "watch", id, "key", r.Key, "end", r.RangeEnd)
 }
 
-func (w *watcher) Watch(ctx context.Context, id int64, r *etcdserverpb.WatchCreateRequest) {
+func (w *watcher) Watch(ctx context.Context, id int64, r *etcdserverpb.WatchCreateRequest, sub *subscription) {
 	defer w.wg.Done()
 	// when connection error, in etcd client v3 newWatchClient function,
 	// range stream retry with newest revision may fall into this logic, which results
@@ -293,17 +317,11 @@ func (w *watcher) Watch(ctx context.Context, id int64, r *etcdserverpb.WatchCrea
 		return
 	}
 
-	var ch <-chan []*mvccpb.Event
-	var err error
-
 	ctx, cancel := context.WithCancel(ctx)
 	defer cancel()
 
-	if w.grpcServer.peers.IsLeader() {
-		ch, err = w.backend.Watch(ctx, string(r.Key), uint64(r.StartRevision))
-	} else {
-		ch, err = w.grpcServer.peers.Watch(ctx, string(r.Key), uint64(r.StartRevision))
-	}
+	// registered by Start, before `Created` was sent
+	ch, err := sub.ch, sub.err
 	klog.InfoS("[watch stream] watch", "watcher", w.id, "watch", id, "key", r.Key, "end", r.RangeEnd, "rev", r.StartRevision)
 	if err != nil {
 		w.metricCli.EmitCounter("watch.backend.err", 1)
